@@ -49,7 +49,7 @@ static int locate_out (program_t *);
  */
 void save_binary (program_t * prog, mem_block_t * includes, mem_block_t * patches) {
 
-  char file_name_buf[200];
+  char file_name_buf[PATH_MAX];
   char *file_name = file_name_buf;
   FILE *f;
   int i;
@@ -82,6 +82,9 @@ void save_binary (program_t * prog, mem_block_t * includes, mem_block_t * patche
     /* assume all other sizes ok */
     return;
 
+  /* object names can be as long as a path: no binary for one that does not fit */
+  if (strlen (CONFIG_STR (__SAVE_BINARIES_DIR__)) + strlen (prog->name) + 2 > sizeof (file_name_buf))
+    return;
   strcpy (file_name, CONFIG_STR (__SAVE_BINARIES_DIR__));
   if (file_name[0] == '/')
     file_name++;
@@ -425,8 +428,8 @@ sort_function_table (program_t * prog)
  */
 program_t *load_binary (const char *name) {
 
-  char file_name_buf[400];
-  char *buf, *iname, *file_name = file_name_buf, *file_name_two = &file_name_buf[200];
+  char file_name_buf[PATH_MAX], file_name_two_buf[PATH_MAX];
+  char *buf, *iname, *file_name = file_name_buf, *file_name_two = file_name_two_buf;
   int fd;
   FILE *f;
   int i;
@@ -444,6 +447,9 @@ program_t *load_binary (const char *name) {
   num_parse_error = 0;
 
   if (!CONFIG_STR(__SAVE_BINARIES_DIR__))
+    return OUT_OF_DATE;
+  /* object names can be as long as a path: one that does not fit has no binary */
+  if (strlen (CONFIG_STR (__SAVE_BINARIES_DIR__)) + strlen (name) + 2 > sizeof (file_name_buf))
     return OUT_OF_DATE;
   sprintf (file_name, "%s/%s", CONFIG_STR (__SAVE_BINARIES_DIR__), name);
   if (file_name[0] == '/')
@@ -638,6 +644,15 @@ program_t *load_binary (const char *name) {
        * Check times against inherited source.  If saved binary of
        * inherited prog exists, check against it also.
        */
+      file_name_two = file_name_two_buf;
+      if (strlen (CONFIG_STR (__SAVE_BINARIES_DIR__)) + strlen (buf) + 2 > sizeof (file_name_two_buf))
+        {
+          fclose (f);
+          free_string (p->name);
+          FREE (p);
+          FREE (buf);
+          return OUT_OF_DATE;
+        }
       sprintf (file_name_two, "%s/%s", CONFIG_STR (__SAVE_BINARIES_DIR__), buf);
       if (file_name_two[0] == '/')
         file_name_two++;
